@@ -194,8 +194,8 @@ func (k *kase) observe() (o obs) {
 		}
 	}()
 	mfs := fstest.MapFS{
-		"main.go":              &fstest.MapFile{Data: []byte(k.mainSrc())},
-		"gp/src/p/base.go":     &fstest.MapFile{Data: []byte("package p\n\nvar Base = 1\n")},
+		"main.go":                  &fstest.MapFile{Data: []byte(k.mainSrc())},
+		"gp/src/p/base.go":         &fstest.MapFile{Data: []byte("package p\n\nvar Base = 1\n")},
 		"gp/src/p/" + k.fileName(): &fstest.MapFile{Data: []byte(k.content())},
 	}
 	var _ fs.FS = mfs
